@@ -88,7 +88,7 @@ theorem altRel_match {fl : Bool} {tmpl : Term} {N : Nat} {env : Env} {σ : Subst
     (hg : img σ π g = (SLD.headBody c).1.subst θ0)
     (hbv : ∀ x, (SLD.headBody c).2.hasVar x = true → (SLD.headBody c).1.hasVar x = true)
     (hFs : FrRel (fun bg => bg.subst θ0) d (SLD.conjuncts (SLD.headBody c).2) Fs) :
-    AltRel fl σ π D nv d g c (some (.frames (Fs ++ ls.map skipF))) := by
+    AltRel fl σ π D nv d g (clauseOf c) c (some (.frames (Fs ++ ls.map skipF))) := by
   have hcvh : ∀ x, CV c x → (SLD.headBody c).1.hasVar x = true := by
     rintro x (hx | hx)
     · exact hx
@@ -104,7 +104,7 @@ theorem altRel_match {fl : Bool} {tmpl : Term} {N : Nat} {env : Env} {σ : Subst
     rw [← hg] at hz
     exact img_vars_lt' hW hgD hz
   refine .frames (fun x => nv + x) (nv + SLD.maxVar (SLD.headBody c).1) (tauM (SLD.headBody c).1 θ0 (fun x => nv + x))
-    ls hcl hkey (Nat.le_add_right _ _)
+    ls (clauseOf_spec c hcl).2 hkey (Nat.le_add_right _ _)
     (fun x y hx hy hxy => hinj x y (hcvh x hx) (hcvh y hy) hxy)
     (fun x u _ hu => by
       have := hW.bnd u hu
